@@ -1,5 +1,6 @@
 CONSTANT MaxLen = 3
 CONSTANT MaxLenDeep = 4
+CONSTANT MaxSiblings = 3
 SPECIFICATION MCSpec
 INVARIANT RefOnlyEscapesTwo
 INVARIANT Emit
